@@ -87,6 +87,7 @@ type Layout struct {
 	// Split: number of content streams per page (>=1); cut points fall on token boundaries (§7.8.2).
 	Split            int  `json:"split,omitempty"`
 	SplitTight       bool `json:"split_tight,omitempty"`       // no white space at the cut: the token boundary IS the stream boundary
+	EmptyPart        bool `json:"empty_part,omitempty"`        // every page has one more content stream with no data at all (/Length 0)
 	ContentsIndirect bool `json:"contents_indirect,omitempty"` // /Contents refers to an array object instead of holding the array
 	// Pad: white space (legal between any two tokens, §7.2.2) appended to the first content stream of
 	// every page until it is at least this long — long streams exercise buffered reading.
@@ -96,22 +97,22 @@ type Layout struct {
 	Depth  int `json:"depth,omitempty"`
 	FanOut int `json:"fanout,omitempty"`
 	// Inheritable attributes (§7.7.3.4) are written on the ancestor this many levels above the leaf (0 = leaf).
-	BoxLevel    int  `json:"box_level,omitempty"`
-	ResLevel    int  `json:"res_level,omitempty"`
-	RotLevel    int  `json:"rot_level,omitempty"`
+	BoxLevel int `json:"box_level,omitempty"`
+	ResLevel int `json:"res_level,omitempty"`
+	RotLevel int `json:"rot_level,omitempty"`
 	// Shadow: every ancestor ABOVE the node that carries an inheritable attribute carries a different decoy
 	// value for it, which the nearer definition must override (§7.7.3.4: "the value is inherited from an
 	// ancestor" only when the node itself does not define it).
-	Shadow      bool `json:"shadow,omitempty"`
+	Shadow bool `json:"shadow,omitempty"`
 	// FilterArray1: a single filter is written as a one-element array (with its parameters still a dictionary)
-	FilterArray1 bool `json:"filter_array1,omitempty"`
-	ResIndirect bool `json:"res_indirect,omitempty"`  // /Resources is a reference
-	FontDictInd bool `json:"fontdict_ind,omitempty"`  // /Font sub-dictionary is a reference
-	ToUniFlate  bool `json:"touni_flate,omitempty"`   // ToUnicode streams are Flate-compressed
-	ReuseFreed  bool `json:"reuse_freed,omitempty"`   // new objects take freed numbers with generation+1 (§7.5.4)
-	FreeDeleted bool `json:"free_deleted,omitempty"`  // objects that disappear are marked free (otherwise just left unreferenced)
-	OrderKeys   []int `json:"order_keys,omitempty"`   // sort keys permuting file order of objects
-	NumberKeys  []int `json:"number_keys,omitempty"`  // sort keys permuting object numbering
+	FilterArray1 bool  `json:"filter_array1,omitempty"`
+	ResIndirect  bool  `json:"res_indirect,omitempty"` // /Resources is a reference
+	FontDictInd  bool  `json:"fontdict_ind,omitempty"` // /Font sub-dictionary is a reference
+	ToUniFlate   bool  `json:"touni_flate,omitempty"`  // ToUnicode streams are Flate-compressed
+	ReuseFreed   bool  `json:"reuse_freed,omitempty"`  // new objects take freed numbers with generation+1 (§7.5.4)
+	FreeDeleted  bool  `json:"free_deleted,omitempty"` // objects that disappear are marked free (otherwise just left unreferenced)
+	OrderKeys    []int `json:"order_keys,omitempty"`   // sort keys permuting file order of objects
+	NumberKeys   []int `json:"number_keys,omitempty"`  // sort keys permuting object numbering
 
 	EOL             string `json:"eol,omitempty"`               // "\n" (default), "\r\n", "\r" (§7.2.3)
 	StreamCRLF      bool   `json:"stream_crlf,omitempty"`       // "stream" followed by CRLF instead of LF (§7.3.8.1)
@@ -120,7 +121,8 @@ type Layout struct {
 	TrailerSameLine bool   `json:"trailer_same_line,omitempty"` // "trailer << … >>" on one line
 	Version         string `json:"version,omitempty"`           // header version, default 1.7
 	// Patches are deliberate faults applied to single objects (robustness property only).
-	Patches []Patch `json:"patches,omitempty"`
+	Patches    []Patch     `json:"patches,omitempty"`
+	ObjStmHead []HeadFault `json:"objstm_head,omitempty"` // faults in object-stream headers (robustness catalogue only)
 }
 
 // Patch replaces Len bytes at offset Off of the serialised body of object ID by New before the file is laid
@@ -130,6 +132,16 @@ type Patch struct {
 	Off int    `json:"off"`
 	Len int    `json:"len"`
 	New string `json:"new"`
+}
+
+// HeadFault replaces one number of the header of an object stream ("num off num off …", §7.5.7) by New.
+// Stm is the stream's symbolic id ("objstm:<rev>:<k>"), Index the pair, Field 0 the object number and 1 the
+// offset. /First, /N, /Length and the cross-reference entries stay consistent with the faulty header.
+type HeadFault struct {
+	Stm   string `json:"stm"`
+	Index int    `json:"index"`
+	Field int    `json:"field"`
+	New   string `json:"new"`
 }
 
 func (l Layout) xrefKind(rev int) string {
@@ -161,7 +173,7 @@ func (l Layout) key(keys []int, i int) int {
 
 type (
 	Name string
-	Ref  string // symbolic id of an indirect object
+	Ref  string                 // symbolic id of an indirect object
 	NRef struct{ Num, Gen int } // numeric indirect reference (raw writer)
 	Int  int64
 	Real float64
@@ -169,8 +181,8 @@ type (
 		B   []byte
 		Hex bool
 	}
-	Arr  []any
-	KV   struct {
+	Arr []any
+	KV  struct {
 		K string
 		V any
 	}
